@@ -391,7 +391,21 @@ def run(rep, tier):
         def wake_or_withdrawn(x, pos=None):
             return wake(x)
         badpos = always_followed_by(itf, (b, i), wake)
-        badpos = [p_ for p_ in badpos if not any((a in fpar and t is False) for a, t in (ffi.before.get(p_) or frozenset()))]
+        # (a path that falls off the end of a block is judged by the facts at the end of that block)
+        from engine.kinds import implied_facts as _imp10
+
+        def withdrawn_at(p_):
+            fb_ = ffi.before.get(p_)
+            if fb_ is not None:
+                return any((a in fpar and t is False) for a, t in fb_)
+            blk_ = itf.blocks[p_[0]]
+            base_ = set(ffi.block_out.get(p_[0]) or frozenset())
+            edges_ = [(l_, t_) for l_, t_, _ in blk_.succ if t_ == itf.exit]
+            if not edges_ or blk_.cond is None:
+                return any((a in fpar and t is False) for a, t in base_)
+            # the block ends in a test: each edge that leaves the function carries what the test established on it
+            return all(any((a in fpar and t is False) for a, t in (base_ | set(_imp10(blk_.cond, l_ == "true")))) for l_, t_ in edges_)
+        badpos = [p_ for p_ in badpos if not withdrawn_at(p_)]
         if not badpos:
             rep.ok("C13.R10", itf, "after storing a request every normal path reaches set_thread_state(id, pending, abort)")
         else:
